@@ -61,6 +61,9 @@ func unsafeReason(r Rule) string {
 }
 
 func runC04(r *simrt.Run, tier Tier) Outcome {
+	if r.Choose(8, "c04.temporal") == 7 {
+		return runC04Temporal(r, tier)
+	}
 	o := DrawOpts(r)
 	o.Aggregation = false
 	o.Negation = true
@@ -221,14 +224,51 @@ func runC04(r *simrt.Run, tier Tier) Outcome {
 				body = append(body[:pos:pos], append([]Lit{nl}, body[pos:]...)...)
 				pertDesc = append(pertDesc, fmt.Sprintf("rule %d: added %s", ri, nl.Src()))
 			}
-		case 3: // comparison on an unbound variable
-			op := []LKind{LLt, LLe, LGt, LGe, LNeq}[r.Choose(5, "c04.cmp.op")]
-			nl := Lit{K: op, Args: []Expr{V(freshVar()), C(IntV(1))}}
+		case 3: // comparison or inequality with an operand that is unbound, or bound only further right
+			op := []LKind{LLt, LLe, LGt, LGe, LNeq, LNeq, LNeq}[r.Choose(7, "c04.cmp.op")]
+			bound, _, _ := BindingClosure(body)
+			var ints []string
+			for v := range bound {
+				if varHasType(prog, rule, v, TInt) {
+					ints = append(ints, v)
+				}
+			}
+			sortStrings(ints)
+			a, b := V(freshVar()), C(IntV(1))
+			if len(ints) > 0 && r.Bool("c04.cmp.twovars") {
+				// two variables of the clause: where the literal stands decides
+				// which of them already has a value
+				ia := r.Choose(len(ints), "c04.cmp.a")
+				a = V(ints[ia])
+				if len(ints) >= 2 && !r.OneIn(4, "c04.cmp.onefresh") {
+					b = V(ints[(ia+1+r.Choose(len(ints)-1, "c04.cmp.b"))%len(ints)])
+				} else {
+					b = V(freshVar())
+				}
+			}
+			nl := Lit{K: op, Args: []Expr{a, b}}
 			if r.Bool("c04.cmp.swap") {
 				nl.Args[0], nl.Args[1] = nl.Args[1], nl.Args[0]
 			}
-			body = append(body, nl)
-			pertDesc = append(pertDesc, fmt.Sprintf("rule %d: added %s", ri, nl.Src()))
+			pos := len(body)
+			if r.Bool("c04.cmp.anywhere") {
+				pos = r.Choose(len(body)+1, "c04.cmp.pos")
+				// prefer a place where exactly one of two different variables has a value already
+				if a.Var != "" && b.Var != "" && a.Var != b.Var {
+					var split []int
+					for q := 0; q <= len(body); q++ {
+						pre, _, _ := BindingClosure(body[:q])
+						if pre[a.Var] != pre[b.Var] {
+							split = append(split, q)
+						}
+					}
+					if len(split) > 0 && !r.OneIn(4, "c04.cmp.nosplit") {
+						pos = split[r.Choose(len(split), "c04.cmp.split")]
+					}
+				}
+			}
+			body = append(body[:pos:pos], append([]Lit{nl}, body[pos:]...)...)
+			pertDesc = append(pertDesc, fmt.Sprintf("rule %d: added %s at position %d", ri, nl.Src(), pos))
 		case 4: // head variable that nothing binds
 			if len(rule.HArgs) > 0 {
 				j := r.Choose(len(rule.HArgs), "c04.headarg")
